@@ -26,6 +26,7 @@ Inductive expr := ENil | ETimerC | ETrue.
 
 Inductive cond :=
 | CDeadlineSet (w : which)   (* t, ok := X.Load().(time.Time); ok && !t.IsZero() *)
+| CDeadlineNotDue (w : which) (* t, ok := X.Load().(time.Time); !ok || t.IsZero() || time.Now().Before(t) *)
 | CTimerNil                  (* timeout == nil *)
 | CTimerNonNil               (* timeout != nil *)
 | CNotTimerStop              (* !timeout.Stop()      -- performs the Stop *)
